@@ -269,12 +269,37 @@ fn classics() -> Vec<(&'static str, StandardLinearModel)> {
     ]
 }
 
+/// variants of the two instances that cycle under Dantzig's rule with this ratio-test tie-break (Chvátal,
+/// Beale): extra non-binding rows and extra never-entering columns keep the cycle but change sizes (and
+/// with them the stall limit); they are what exercises the Bland branch of `find_h`.
+fn cycling_variant(r: &mut Rng) -> StandardLinearModel {
+    let (obj, rows): (Vec<f64>, Vec<(Vec<f64>, f64)>) = if r.chance(1, 2) {
+        (vec![-10.0, 57.0, 9.0, 24.0], vec![(vec![0.5, -5.5, -2.5, 9.0], 0.0), (vec![0.5, -1.5, -0.5, 1.0], 0.0), (vec![1.0, 0.0, 0.0, 0.0], 1.0)])
+    } else {
+        (vec![-0.75, 150.0, -0.02, 6.0], vec![(vec![0.25, -60.0, -0.04, 9.0], 0.0), (vec![0.5, -90.0, -0.02, 3.0], 0.0), (vec![0.0, 0.0, 1.0, 0.0], 1.0)])
+    };
+    let extra_cols = r.below(3);
+    let extra_rows = r.below(3);
+    let k = obj.len() + extra_cols;
+    let mut obj = obj; for _ in 0..extra_cols { obj.push(1.0 + r.below(5) as f64); }
+    let mut rows: Vec<(Vec<f64>, f64)> = rows.into_iter().map(|(mut c, b)| { for _ in 0..extra_cols { c.push(r.range(0, 3) as f64); } (c, b) }).collect();
+    for _ in 0..extra_rows { let mut c = vec![0.0; k]; c[r.below(k)] = 1.0; c[r.below(k)] += 1.0; rows.push((c, 50.0 + r.below(50) as f64)); }
+    let m = rows.len();
+    obj.extend(vec![0.0; m]);
+    let rs = rows.into_iter().enumerate().map(|(i, (mut c, b))| { for j in 0..m { c.push(if i == j { 1.0 } else { 0.0 }); } (c, b) }).collect();
+    std_from(obj, rs, true, 0.0)
+}
+
 pub fn generate(seed: u64, n: usize, thorough: bool, _corpus: Option<&str>) -> Vec<Case> {
     let mut r = Rng::new(seed).fork(); // fork: `Rng::new(s+1)` is `Rng::new(s)` shifted by one draw, the fork decorrelates seeds
     let tol = gen_lp::measured_tolerance();
     let mut cases = vec![];
     for (name, sm) in classics() {
         problem(&sm, tol, &["stream:classic".to_string(), name.to_string()], &[], &mut cases);
+    }
+    for _ in 0..(if thorough { 80 } else { 8 }) {
+        let sm = cycling_variant(&mut r);
+        problem(&sm, tol, &["stream:cycling-variants".to_string()], &[], &mut cases);
     }
     // seeded known defect (liveness of the pipeline): a reduced cost below the absolute tolerance
     problem(&std_from(vec![-2.0, -0.00000999, 0.0, 0.0], vec![(vec![1.0, 0.0, -1.0, 0.0], 3.0), (vec![1.0, 0.0, 0.0, 1.0], 3.0)], false, 0.0),
